@@ -374,3 +374,93 @@ Proof.
   pose proof (argsort_perm (sel EmptyString ks12 i1)) as HP. rewrite sel_length, (is_perm_length _ _ H1) in HP.
   eapply is_perm_lt; eauto.
 Qed.
+
+(* ---------- record-level identity ---------- *)
+Lemma inv_order_seq n : inv_order (seq 0 n) = seq 0 n.
+Proof.
+  symmetry. apply (inv_unique n); try apply is_perm_id. apply sel_seq. apply seq_length.
+Qed.
+Lemma remap_pauli_seq N : remap_pauli N (seq 0 N) = seq 0 (4 ^ N).
+Proof.
+  apply (nth_ext _ _ 0 0). rewrite remap_pauli_length, seq_length; auto.
+  intros k Hk. rewrite remap_pauli_length in Hk. rewrite remap_pauli_id by auto. rewrite seq_nth; auto.
+Qed.
+Lemma gcols_seq {X} (d : X) n1 n2 (A : list (list X)) : is_arr n1 n2 A -> gcols d (seq 0 n2) A = A.
+Proof.
+  intros [L Fa]. unfold gcols. rewrite <- (map_id A) at 2. apply map_ext_in. intros row Hr.
+  rewrite Forall_forall in Fa. apply sel_seq. apply Fa; auto.
+Qed.
+Lemma scatter_cm_id na K (Bm : list (list (list Cx))) : is_arr na K Bm ->
+  scatter_cm (inv_order (seq 0 na)) (seq 0 K) Bm = Bm.
+Proof.
+  intros HB. rewrite (scatter_cm_gather na K); auto; try (rewrite inv_order_seq); try apply is_perm_id.
+  rewrite !inv_order_seq. rewrite (gcols_seq [] na K) by auto. apply sel_seq. apply HB.
+Qed.
+Lemma scatter2_id K (L : list (list R)) : is_arr K K L -> scatter2 0%R (seq 0 K) L = L.
+Proof.
+  intros HL. rewrite (scatter2_gather K); auto; try apply is_perm_id.
+  rewrite !inv_order_seq. rewrite (gcols_seq 0%R K K) by auto. apply sel_seq. apply HL.
+Qed.
+Lemma resort_ff_id n (Fm : list (list (list Cx))) : is_arr n n Fm -> resort_ff (seq 0 n) Fm = Fm.
+Proof.
+  intros HF. unfold resort_ff. fold (gcols [] (seq 0 n) Fm). rewrite (gcols_seq [] n n) by auto. apply sel_seq. apply HF.
+Qed.
+
+(* a cached value of r is the cached value of p *)
+Definition slot_sub {X} (sr sp : slot X) : Prop := forall x, sr = Have x -> sp = Have x.
+Lemma slot_sub_smap {X} (f : X -> X) sp : (forall y, sp = Have y -> f y = y) -> slot_sub (smap f sp) sp.
+Proof. intros H x. destruct sp; simpl; try discriminate. intros E. inversion E. rewrite H; auto. Qed.
+Lemma slot_sub_fresh {X} (sp : slot X) : slot_sub Fresh sp. Proof. intros x; discriminate. Qed.
+Lemma slot_sub_absent {X} (sp : slot X) : slot_sub Absent sp. Proof. intros x; discriminate. Qed.
+Lemma slot_sub_refl {X} (sp : slot X) : slot_sub sp sp. Proof. intros x; auto. Qed.
+
+(* remap by the identity permutation without identifier mapping: operators, identifiers, coefficients are unchanged,
+   and no cached value is changed (a slot of the result holds the input's value, or was recomputed by the new pulse
+   itself, or was dropped) *)
+Theorem remap_id_record (p r : rpulse) dq N :
+  0 < dq -> rremap p (seq 0 N) dq None = Some r -> ilog dq (p_d p) = N ->
+  Forall (is_mat (dq ^ N)) (c_opers p) -> Forall (is_mat (dq ^ N)) (n_opers p) ->
+  List.length (c_opers p) = List.length (c_ids p) -> List.length (n_opers p) = List.length (n_ids p) ->
+  List.length (c_coeffs p) = List.length (c_ids p) -> List.length (n_coeffs p) = List.length (n_ids p) ->
+  (forall evs, eigvals p = Have evs -> Forall (fun v => List.length v = dq ^ N) evs) ->
+  (forall Vs, eigvecs p = Have Vs -> Forall (is_mat (dq ^ N)) Vs) ->
+  (forall Qs, propagators p = Have Qs -> Forall (is_mat (dq ^ N)) Qs) ->
+  (forall U, total_propagator p = Have U -> is_mat (dq ^ N) U) ->
+  (forall Bm, control_matrix p = Have Bm -> is_arr (List.length (n_ids p)) (4 ^ N) Bm) ->
+  (forall L, tpl p = Have L -> is_arr (4 ^ N) (4 ^ N) L) ->
+  (forall Fm, filter_function p = Have Fm -> is_arr (List.length (n_ids p)) (List.length (n_ids p)) Fm) ->
+  c_opers r = c_opers p /\ n_opers r = n_opers p /\ c_ids r = c_ids p /\ n_ids r = n_ids p /\
+  c_coeffs r = c_coeffs p /\ n_coeffs r = n_coeffs p /\ p_dt r = p_dt p /\ p_d r = p_d p /\ btype r = btype p /\
+  slot_sub (eigvals r) (eigvals p) /\ slot_sub (eigvecs r) (eigvecs p) /\ slot_sub (propagators r) (propagators p) /\
+  slot_sub (total_propagator r) (total_propagator p) /\ slot_sub (omega r) (omega p) /\
+  slot_sub (total_phases r) (total_phases p) /\ slot_sub (filter_function r) (filter_function p) /\
+  slot_sub (tpl r) (tpl p) /\ slot_sub (control_matrix r) (control_matrix p).
+Proof.
+  intros Hd H HN Hc Hn Lc Ln Lcc Lnc Sev Svs Sqs Stp Scm Stpl Sff.
+  apply remap_inv in H. destruct H as [cids [nids [cidx [nidx Fk]]]]. rewrite HN in Fk.
+  destruct Fk as [rf_perm0 rf_dim0 rf_cmap0 rf_nmap0 rf_d0 rf_copers0 rf_nopers0 rf_cids0 rf_nids0 rf_ccoeffs0 rf_ncoeffs0 rf_dt0
+                  rf_btype0 rf_eigvals0 rf_eigvecs0 rf_props0 rf_tp0 rf_omega0 rf_phases0 rf_ff0 rf_tpl0 rf_cm0].
+  simpl in rf_cmap0, rf_nmap0. inversion rf_cmap0; subst cids cidx. inversion rf_nmap0; subst nids nidx.
+  assert (G : forall ops : list (Mat (T:=R)), Forall (is_mat (dq ^ N)) ops -> map (tt2 0c dq N (seq 0 N)) ops = ops).
+  { induction 1; simpl; auto. rewrite IHForall. f_equal. apply tt2_id; auto. }
+  assert (G1 : forall vs : list (list R), Forall (fun v => List.length v = dq ^ N) vs -> map (tt1 0%R dq N (seq 0 N)) vs = vs).
+  { induction 1; simpl; auto. rewrite IHForall. f_equal. apply tt1_id; auto. }
+  split. rewrite rf_copers0, G by auto. rewrite <- Lc. apply sel_seq; auto.
+  split. rewrite rf_nopers0, G by auto. rewrite <- Ln. apply sel_seq; auto.
+  split. rewrite rf_cids0. apply sel_seq; auto.
+  split. rewrite rf_nids0. apply sel_seq; auto.
+  split. rewrite rf_ccoeffs0, <- Lcc. apply sel_seq; auto.
+  split. rewrite rf_ncoeffs0, <- Lnc. apply sel_seq; auto.
+  split; [auto|]. split; [auto|]. split; [auto|].
+  split. rewrite rf_eigvals0. destruct (need_diag p). apply slot_sub_fresh. apply slot_sub_smap. intros y E. apply G1. eauto.
+  split. rewrite rf_eigvecs0. destruct (need_diag p). apply slot_sub_fresh. apply slot_sub_smap. intros y E. apply G. eauto.
+  split. rewrite rf_props0. destruct (need_diag p). apply slot_sub_fresh. apply slot_sub_smap. intros y E. apply G. eauto.
+  split. rewrite rf_tp0. destruct (need_tp p). apply slot_sub_fresh. apply slot_sub_smap. intros y E. apply tt2_id; eauto.
+  split. rewrite rf_omega0. destruct (has_om p && cached (total_phases p) || has_om p && cached (filter_function p) || has_cm p). apply slot_sub_refl. apply slot_sub_absent.
+  split. rewrite rf_phases0. destruct (has_cm p). apply slot_sub_fresh. destruct (has_om p && cached (total_phases p)). apply slot_sub_refl. apply slot_sub_absent.
+  split. rewrite rf_ff0. destruct (has_om p && cached (filter_function p)); [|apply slot_sub_absent]. apply slot_sub_smap. intros y E. apply resort_ff_id. eauto.
+  split. rewrite rf_tpl0. destruct (has_liou p && cached (tpl p)). apply slot_sub_smap. intros y E. rewrite remap_pauli_seq. apply scatter2_id. eauto.
+    destruct (has_cm p). apply slot_sub_fresh. apply slot_sub_absent.
+  rewrite rf_cm0. destruct (has_cm p); [|apply slot_sub_absent]. apply slot_sub_smap. intros y E.
+  rewrite remap_pauli_seq. apply scatter_cm_id. eauto.
+Qed.
